@@ -596,7 +596,7 @@ def model_has(c):
     return [(s_no, Cond("const", False)), (s_yes, Cond("const", True))]
 
 
-def adders(prog, chk):
+def adders(prog, chk, ks=(0, 1, 2)):
     """The four adders and the two queries, with the builder's list of present types a short list of symbolic types
     (sizes 0..2) and everything analysed for real: the verdict of each return state is compared with the specification
     evaluated on the comparisons the path decided (first present type, in list order, that conflicts)."""
@@ -666,7 +666,7 @@ def adders(prog, chk):
         n = 0
         seen = set()
         body = None
-        for k in (0, 1, 2):
+        for k in ks:
             body, results, pv = run_adder(fn, k)
             for r, st, ret in results:
                 use_registry(r.it)
@@ -731,7 +731,7 @@ def adders(prog, chk):
             if isinstance(ev, Enum):
                 st.cells[c_] = ev.only([v["name"] for v in prog.adts[ev.adt]["variants"]].index(av))
         seen = set()
-        for k in (0, 1, 2):
+        for k in ks:
             body, results, pv = run_adder("add_message_integrity", k, pin)
             for r, st, ret in results:
                 use_registry(r.it)
@@ -764,7 +764,7 @@ def adders(prog, chk):
     rule = "add_fingerprint-table"
     seen = set()
     body = None
-    for k in (0, 1, 2):
+    for k in ks:
         body, results, pv = run_adder("add_fingerprint", k)
         for r, st, ret in results:
             use_registry(r.it)
@@ -788,7 +788,7 @@ def adders(prog, chk):
 
     # ---- the two queries themselves
     rule = "queries"
-    for k in (0, 1, 2):
+    for k in ks:
         for m in (1, 2):
             qv = [Lin.var("q%d" % i) for i in range(m)]
 
@@ -813,7 +813,7 @@ def adders(prog, chk):
                     if got != "Some" or known_eq(st, pay, Struct({0: Num(pv[fc[0]])})) is not True:
                         problems.append("answers %r, not the first present type that is asked about" % (ret,))
                 chk.ob(rule, "has_any_attribute|%d present, %d asked|%s" % (k, m, got), not problems, body.loc(), detail="; ".join(problems), how="E2 return state")
-    for k in (0, 1, 2):
+    for k in ks:
         def hsetup(run, st):
             v = Lin.var("q0")
             st.sys.add_range(v, 0, 65535)
